@@ -53,7 +53,8 @@ FAULT_TABLE = [
     ('M', '[[1],2,3]', ['UnableToParse']), ('M', '[1,2,[3]]', ['UnableToParse']), ('M', '[[[1,2],[3,4]],[[1,2],[3,4]]]', ['UnableToParse']),
     # author mistakes that only show while grading: still a library error (never a bare numpy / Python one)
     ('LIN2', 'x', ['ConfigError']), ('SPANBAD', '[1,2]', ['StudentFacingError']), ('PHASEBAD', '[1,2]', ['StudentFacingError']),
-    ('SUM', ['1.5', '3', 'n', 'n'], ['SummationError']), ('SUM', ['1', '3', 'n', 'pi'], ['InvalidInput']),
+    ('SUM', ['1.5', '3', 'n', 'n'], ['SummationError']), ('SUM', ['i^2+2', '3', 'n', 'n'], ['SummationError']),
+    ('SUM', ['1', '3+0*i', 'n', 'n'], ['SummationError']), ('SUM', ['1', '3+i', 'n', 'n'], ['SummationError']), ('SUM', ['1', '3', 'n', 'pi'], ['InvalidInput']),
     ('SUM', ['1', '', 'n', 'n'], ['MissingInput']), ('L', ['', 'x'], ['MissingInput', None]),
 ]
 
